@@ -101,12 +101,12 @@ func measure(doc []ev.E) usage {
 }
 
 type c14Witness struct {
-	Path   string            `json:"path"`
-	Limit  string            `json:"limit"`
-	Value  uint64            `json:"value"`
-	Usage  int               `json:"usage"`
-	Events []ev.E            `json:"events"`
-	Doc    []byte            `json:"document,omitempty"`
+	Path   string `json:"path"`
+	Limit  string `json:"limit"`
+	Value  uint64 `json:"value"`
+	Usage  int    `json:"usage"`
+	Events []ev.E `json:"events"`
+	Doc    []byte `json:"document,omitempty"`
 }
 
 func limitCfg(name string, v uint64) *configuration.Configuration {
